@@ -137,7 +137,7 @@ def load_known():
         return json.load(f)
 
 
-def run_property(pid, tier, rules, meta):
+def run_property(pid, tier, rules, meta, controls=()):
     """rules: list of (rule_name, fn(ctx) -> iterable[Ob], floor).  Returns exit code."""
     t0 = time.time()
     seed = int(os.environ.get('VERIF_SEED', '0') or 0)
@@ -160,6 +160,24 @@ def run_property(pid, tier, rules, meta):
     except BuildFailed as e:
         print('BUILD-FAILED property=%s\n%s' % (pid, e))
         return 2
+    # positive controls: each listed patch must make this property's quick check report a violation on a scratch copy
+    control_results = []
+    if controls and os.environ.get('VERIF_IN_CONTROL') != '1':
+        for c in controls:
+            pth = os.path.join(V, c)
+            env = dict(os.environ)
+            env['VERIF_IN_CONTROL'] = '1'
+            env['MUT_LINES'] = '3'
+            r = subprocess.run([os.path.join(V, 'bin/mutant_run.sh'), pth, pid], env=env, stdout=subprocess.PIPE, stderr=subprocess.STDOUT)
+            out = r.stdout.decode(errors='replace')
+            if 'PATCH-DOES-NOT-APPLY' in out:
+                control_results.append({'control': c, 'result': 'not-applicable (patch does not apply to the current tree)'})
+            elif '== %s exit=1' % pid in out:
+                rule_line = [l.strip() for l in out.splitlines() if l.strip().startswith('rule=')]
+                control_results.append({'control': c, 'result': 'detected', 'by': rule_line[:1]})
+            else:
+                control_results.append({'control': c, 'result': 'MISSED'})
+                broken.append('positive control %s was not detected by the quick check of %s' % (c, pid))
     known = load_known()
     known_keys = {(k['property'], k['key']): k for k in known.get('findings', [])}
     viol = [o for o in obs if o.ok is False]
@@ -221,6 +239,7 @@ def run_property(pid, tier, rules, meta):
             'functions_analysed': len(functions),
             'undecided_subchecks': [o.to_json() for o in undec][:40],
             'known_findings_hit': [o.key for o, _ in known_hit],
+            'positive_controls': control_results,
             'trusted_base': ['rustc MIR construction (nightly)', 'rules/tables contracts for external crates',
                              'bls12_381_plus / rand / rug / elliptic-curve library semantics'],
             'exhaustive': False,
